@@ -764,11 +764,22 @@ fn sched_run(prop: &str, run: usize, seed: u64) -> Vec<J> {
     use digital_test_runner::verif;
     let mut g = Gen::new(seed, Knobs { p_c: 0.08, p_x: 0.05, bidir: true, max_stmts: 10, max_virtuals: 1, allow_random: false, p_device: if run % 2 == 0 { 0.0 } else { 0.3 }, ..Knobs::control_flow() });
     if run % 2 == 0 {
-        g.k.max_virtuals = 0;
+        // static tests may declare virtual signals too, as long as these read nothing either (constant expressions, below)
+        g.k.max_virtuals = if run % 6 == 0 { 2 } else { 0 };
     }
     let plan = g.plan();
     let mut prog = g.program(&plan);
     if run % 2 == 0 {
+        fn constant_declares(stmts: &mut [Stmt], rng: &mut StdRng) {
+            for s in stmts {
+                match s {
+                    Stmt::Declare { e, .. } => *e = Expr::bin(["+", "*", "<<"].choose(rng).unwrap(), Expr::Num(rng.gen_range(0..9)), Expr::Num(rng.gen_range(0..5))),
+                    Stmt::Loop { body, .. } | Stmt::While { body, .. } => constant_declares(body, rng),
+                    _ => {}
+                }
+            }
+        }
+        constant_declares(&mut prog, &mut g.rng);
         // a static test: every name is assigned at top level before it is used, so nothing is read from the device
         let mut names: Vec<String> = g.k.vars.clone();
         for d in 0..=g.k.max_depth {
@@ -1324,6 +1335,24 @@ fn scale_run(wl: &str, run: usize, seed: u64) -> Vec<J> {
             }
             let es = mk(5, &mut rng);
             prog.push(Stmt::Loop { var: "i".into(), max: Expr::num(2), body: vec![row(es)] });
+            // every other variant: a virtual signal that reads nothing (it has a value even when the driver reports nothing),
+            // with or without a column of its own
+            if variant % 2 == 1 {
+                prog.insert(rng.gen_range(0..=prog.len()), Stmt::Declare { name: "VK".into(), e: Expr::bin("+", Expr::num(5), Expr::num(variant as i64)) });
+                if rng.gen_bool(0.5) {
+                    header.push("VK".into());
+                    fn add_col(stmts: &mut [Stmt], v: i64) {
+                        for s in stmts {
+                            match s {
+                                Stmt::Row { entries, .. } => entries.push(if v % 3 == 0 { Entry::X } else { Entry::Num(5 + v) }),
+                                Stmt::Loop { body, .. } | Stmt::While { body, .. } => add_col(body, v),
+                                _ => {}
+                            }
+                        }
+                    }
+                    add_col(&mut prog, variant as i64);
+                }
+            }
             opt.mode = ValMode::InWidth;
             opt.p_zx = 0.2;
             (header, supplied, prog)
